@@ -342,7 +342,24 @@ def _msg_text(m, scope, e, depth=0, seen=None, within=None):
         return (e.value if isinstance(e.value, str) else ""), False, ""
     if isinstance(e, ast.JoinedStr):
         src = " ".join(norm(x.value) for x in e.values if isinstance(x, ast.FormattedValue))
-        return " ".join(x.value for x in e.values if isinstance(x, ast.Constant) and isinstance(x.value, str)), False, src
+        txt = [x.value for x in e.values if isinstance(x, ast.Constant) and isinstance(x.value, str)]
+        opq = False
+        for x in e.values:
+            if not isinstance(x, ast.FormattedValue):
+                continue
+            hv = x.value
+            if isinstance(hv, ast.Name):
+                # a hole filled from a local that holds a piece of message text (`what = "the parameters of"`): its text counts
+                defs = c05._assignments_to(scope, hv.id) if isinstance(scope, FuncInfo) else []
+                if defs and all(d[1] is not None and isinstance(d[1], (ast.Constant, ast.JoinedStr, ast.BinOp, ast.IfExp)) for d in defs):
+                    a_, b_, c_ = _msg_text(m, scope, hv, depth + 1, seen, within)
+                    txt.append(a_)
+                    opq = opq or b_
+            elif isinstance(hv, ast.Attribute) and isinstance(scope, FuncInfo) and scope.cls is not None and scope.params \
+                    and isinstance(hv.value, ast.Name) and hv.value.id == scope.params[0] and depth > 0:
+                # `{self.what}` in a message-building method: text the object was given elsewhere
+                opq = True
+        return " ".join(txt), opq, src
     parts = []
     if isinstance(e, ast.BinOp):
         parts = [e.left, e.right]
@@ -426,6 +443,13 @@ def check_stage_wiring(ctx, r):
                     continue
                 for rs in raises:
                     x = rs.exc
+                    if isinstance(x, ast.Name) and x.id not in impl.params:
+                        # `err = TypeCheckError(msg); raise err [from ..]`: the raised object is what the local was bound to
+                        ds = [d for d in c05._assignments_to(impl, x.id) if id(d[0]) in {id(y) for y in ast.walk(hd)}]
+                        if ds and all(d[2] is None and isinstance(d[1], ast.Call) for d in ds) and len({norm(d[1].func) for d in ds}) == 1:
+                            x = ds[0][1]
+                        else:
+                            raise AnalysisError(f"C13.3: `{norm(rs)[:60]}` in the {stage}-check handler raises a local whose class the rule cannot read")
                     cname = x.func.id if isinstance(x, ast.Call) and isinstance(x.func, ast.Name) else None
                     if cname != "TypeCheckError":
                         ctx.bad("C13.3", impl, rs, f"a violated annotation ({stage} check) raises `{norm(x)[:40]}`, not jaxtyping.TypeCheckError")
